@@ -203,7 +203,7 @@ struct EncScenario : Scenario {
                             if (!m.inf && !comp) { size_t half = m.xy.size() / 2; for (size_t i = 0; i < half; i += 48) { Bn y = Bn::from_be(&m.xy[half + i], 48); if (!y.is_zero()) y = Bn::sub(K().q, y); y.to_be(&b[half + i], 48); } fired = true; }
                         }
                         else if (kind == "isocurve") { if (!comp) fired = iso_scale_uncompressed(b, (uint64_t) atoll(arg.c_str())); }
-                        else if (kind == "wrongsub") { Buf pa(c.asz()); std::vector<uint8_t> xb; if (curve_point_from_seed(c, arg, false, pa, xb)) { b = model_encode(mpoint_of_affine(R, g, pa), comp); fired = true; } }
+                        else if (kind == "wrongsub") { Buf pa(c.asz()); std::vector<uint8_t> xb; if (curve_point_from_seed(c, arg, false, pa, xb)) { if (strhash(arg.c_str()) & 1) { cofactor_part(R, g, pa); env.count("fault:element_in_the_cofactor_part_only"); } b = model_encode(mpoint_of_affine(R, g, pa), comp); fired = true; } }
                         else if (kind == "xnoy") { Buf pa(c.asz()); std::vector<uint8_t> xb; if (comp && curve_point_from_seed(c, arg, true, pa, xb)) { b = xb; b[0] |= FL_COMPRESSED; if (strhash(arg.c_str()) & 1) b[0] |= FL_GREATER; fired = true; } }
                         else if (kind == "badinf") {
                             int v = atoi(arg.c_str());
